@@ -5,6 +5,9 @@
    kind 2  L [I 2; conv; I sq; I ss; header; colopts; lines]   MetadataMap.from_file on raw lines
    kind 3  L [I 3; conv; table; samp opt; obs opt; colopts; samp_header; obs_header]   _add_metadata
    kind 4  L [I 4; conv; I sq; I ss; header; colopts; grammar] render + parse + relation
+   kind 5  L [I 5; tables; steps]   history over several tables -> the tables after every step
+           step  L [I 0; I ti; I axis; L [L [id; src]; ...]]   src = L [I 0; entry] | L [I 1; I tj; I axis; id]
+                 L [I 1; I ti; keys opt; I sel]
    conv    L [L [I kind; text; value]; ...]   the graph of int() / float() on the texts of the case *)
 From Coq Require Import List ZArith Bool.
 From BiomV Require Import Base.Tree Base.ListUtil Base.Matrix Model.Table Model.Tsv Model.Metadata.
@@ -42,6 +45,15 @@ Definition tItem (t : Tree) : mitem :=
   end.
 Definition tMfile (t : Tree) : mfile := mkF (tTexts (tnth t 0)) (tTexts (tnth t 1)) (map tItem (tL (tnth t 2))).
 
+Definition tSrc (t : Tree) : esrc :=
+  if tZ (tnth t 0) =? 0 then ELit (tAssoc (tnth t 1))
+  else ERef (tN (tnth t 1)) (tAxis (tnth t 2)) (tText (tnth t 3)).
+Definition tSel (z : Z) : axsel := if z =? 0 then SelObs else if z =? 1 then SelSamp else SelWhole.
+Definition tStep (t : Tree) : minstr :=
+  if tZ (tnth t 0) =? 0
+  then IAdd (tN (tnth t 1)) (tAxis (tnth t 2)) (map (fun kv => (tText (tnth kv 0), tSrc (tnth kv 1))) (tL (tnth t 3)))
+  else IDel (tN (tnth t 1)) (tOpt tTexts (tnth t 2)) (tSel (tZ (tnth t 3))).
+
 Definition run (t : Tree) : Tree :=
   match tZ (tnth t 0) with
   | 0 =>
@@ -62,6 +74,8 @@ Definition run (t : Tree) : Tree :=
   | 3 =>
       eResult eMtab (cli_add (tConv (tnth t 1)) (tMtab (tnth t 2)) (tOpt tTexts (tnth t 3)) (tOpt tTexts (tnth t 4))
                              (tColopts (tnth t 5)) (tTexts (tnth t 6)) (tTexts (tnth t 7)))
+  | 5 =>
+      L (map (fun ts => L (map eMtab ts)) (mexec (map tMtab (tL (tnth t 1))) (map tStep (tL (tnth t 2)))))
   | _ =>
       let conv := tConv (tnth t 1) in
       let sq := tB (tnth t 2) in let ss := tB (tnth t 3) in
